@@ -19,8 +19,13 @@ pub trait Bytes {
     fn b(&self) -> &[u8];
     fn sub(&self, from: usize) -> &Self;
     fn boundary(&self, i: usize) -> bool;
+    /// some other source of the same type (target of `clone_from`)
+    fn alt<'a>() -> &'a Self;
 }
 impl Bytes for str {
+    fn alt<'a>() -> &'a Self {
+        "zz 99 == \"q\" é\n_x1 +"
+    }
     fn b(&self) -> &[u8] {
         self.as_bytes()
     }
@@ -32,6 +37,9 @@ impl Bytes for str {
     }
 }
 impl Bytes for [u8] {
+    fn alt<'a>() -> &'a Self {
+        b"<a> 12 \x80\xff\xfe xyz\n0"
+    }
     fn b(&self) -> &[u8] {
         self
     }
@@ -56,6 +64,9 @@ pub trait Dyn<'s> {
     fn bump(&mut self, n: usize);
     fn extras(&mut self) -> &mut u64;
     fn dup(&self) -> Box<dyn Dyn<'s> + 's>;
+    /// `other.clone_from(self)` where `other` is a lexer of the same type over another source, in the mode chosen by `k`,
+    /// advanced by up to three items
+    fn dup_via_clone_from(&self, k: u8) -> Box<dyn Dyn<'s> + 's>;
     fn morph(self: Box<Self>) -> Box<dyn Dyn<'s> + 's>;
     fn spanned(self: Box<Self>) -> Box<dyn Dyn<'s> + 's>;
     fn is_spanned(&self) -> bool;
@@ -99,6 +110,15 @@ where
     }
     fn dup(&self) -> Box<dyn Dyn<'s> + 's> {
         Box::new(self.clone())
+    }
+    fn dup_via_clone_from(&self, k: u8) -> Box<dyn Dyn<'s> + 's> {
+        let alt: &'s T::Source = <T::Source as Bytes>::alt();
+        let mut other = if k % 2 == 0 { Lexer::<T>::with_extras(alt, 4242) } else { Lexer::<T>::partial_with_extras(alt, 4242) };
+        for _ in 0..(k / 2 % 4) {
+            let _ = Iterator::next(&mut other);
+        }
+        other.clone_from(self);
+        Box::new(other)
     }
     fn morph(self: Box<Self>) -> Box<dyn Dyn<'s> + 's> {
         Box::new((*self).morph::<T::Other>())
@@ -155,6 +175,15 @@ where
     fn dup(&self) -> Box<dyn Dyn<'s> + 's> {
         Box::new(self.clone())
     }
+    fn dup_via_clone_from(&self, k: u8) -> Box<dyn Dyn<'s> + 's> {
+        let alt: &'s T::Source = <T::Source as Bytes>::alt();
+        let mut other = if k % 2 == 0 { Lexer::<T>::with_extras(alt, 4242).spanned() } else { Lexer::<T>::partial_with_extras(alt, 4242).spanned() };
+        for _ in 0..(k / 2 % 4) {
+            let _ = Iterator::next(&mut other);
+        }
+        other.clone_from(self);
+        Box::new(other)
+    }
     fn morph(self: Box<Self>) -> Box<dyn Dyn<'s> + 's> {
         // SpannedIter cannot be unwrapped; morph is not available on it
         self
@@ -183,6 +212,8 @@ pub enum Op {
     CloneCheck,
     /// clone and continue with the clone (dropping the original)
     CloneSwitch,
+    /// `other.clone_from(&lex)` into a lexer over another source / in another mode, continue with `other`
+    CloneFrom(u8),
     Morph,
     Spanned,
     Accessors,
@@ -195,6 +226,7 @@ pub fn op_strategy() -> BoxedStrategy<Op> {
         3 => any::<u16>().prop_map(Op::Bump),
         2 => Just(Op::CloneCheck),
         1 => Just(Op::CloneSwitch),
+        2 => any::<u8>().prop_map(Op::CloneFrom),
         3 => Just(Op::Morph),
         1 => Just(Op::Spanned),
         3 => Just(Op::Accessors),
@@ -344,6 +376,13 @@ pub fn interpret(case: &Case, run: Option<&mut Run>) -> Result<(), String> {
                 last_was_bump = n > 0;
                 last_was_morph = false;
             }
+            Op::CloneFrom(k) => {
+                let mut c = lex.dup_via_clone_from(*k);
+                flags.1 = true;
+                check_acc(&mut c, &m, &format!("{when} (the target of clone_from)"))?;
+                lex = c;
+                last_was_morph = false;
+            }
             Op::CloneCheck | Op::CloneSwitch => {
                 let mut c = lex.dup();
                 if m.end > 0 && m.end < len {
@@ -428,6 +467,7 @@ fn ops_json(ops: &[Op]) -> Vec<serde_json::Value> {
             Op::Bump(k) => json!({"bump": k}),
             Op::CloneCheck => json!("clone_check"),
             Op::CloneSwitch => json!("clone_switch"),
+            Op::CloneFrom(k) => json!({"clone_from": k}),
             Op::Morph => json!("morph"),
             Op::Spanned => json!("spanned"),
             Op::Accessors => json!("accessors"),
@@ -450,6 +490,7 @@ fn ops_from(v: &serde_json::Value) -> Vec<Op> {
                         _ => Op::Accessors,
                     },
                     o if o.get("bump").is_some() => Op::Bump(o["bump"].as_u64().unwrap() as u16),
+                    o if o.get("clone_from").is_some() => Op::CloneFrom(o["clone_from"].as_u64().unwrap() as u8),
                     o => Op::Extras(o["extras"].as_u64().unwrap_or(0) as u8),
                 })
                 .collect()
